@@ -279,7 +279,7 @@ class VoiceLeading:
 
 
     def random_optim(self, dvals, max_iter=250, max_norm=3, **kwargs):
-        solutions = [dvals + self.rg.randint(-max_norm, max_norm + 1, dvals.shape) for i in range(max_iter - 1)]
+        solutions = [dvals + self.rg.randint(-max_norm, max_norm + 1, dvals.shape) * self.dvalsmask for i in range(max_iter - 1)]
         solutions.append(dvals)
         scores = [self.eval_solution(sol) for sol in solutions]
         best = np.argmin(scores)
